@@ -384,7 +384,9 @@ func runQLockStep(c QCase, tolerateKnown bool) qOutcome {
 		}
 		if f == nil && !snapEqual(cM, cS) {
 			// allowed choices: which equally old message drop_oldest evicts / dlq depth prunes
-			if onlyChoiceRemovalDiffers(cPrev, cM, cS) {
+			// (for queued messages only while insertion order and received_at leave the victim open: with one
+			// strict order both backends must evict the same messages - seed C13-13 made sqlite evict by due time)
+			if st, ok := onlyChoiceRemovalDiffers(cPrev, cM, cS); ok && (st != "queued" || evictionAmbiguous(cPrev, insSeq)) {
 				return cut(i, "eviction-or-prune-choice")
 			}
 			f = mk("contents", "contents differ after step: %s", diffSnap(cM, cS))
@@ -440,7 +442,7 @@ func idsOf(items []Msg) []string {
 
 // onlyChoiceRemovalDiffers: both backends removed the same number of messages of one state
 // (queued: drop_oldest eviction; dead: dlq depth prune) and everything else is identical.
-func onlyChoiceRemovalDiffers(prev, a, b Snap) bool {
+func onlyChoiceRemovalDiffers(prev, a, b Snap) (string, bool) {
 	var onlyA, onlyB []Msg
 	for _, id := range unionIDs(a, b) {
 		x, inA := a[id]
@@ -448,7 +450,7 @@ func onlyChoiceRemovalDiffers(prev, a, b Snap) bool {
 		switch {
 		case inA && inB:
 			if !eqMsg(x, y) {
-				return false
+				return "", false
 			}
 		case inA:
 			onlyA = append(onlyA, x)
@@ -457,25 +459,25 @@ func onlyChoiceRemovalDiffers(prev, a, b Snap) bool {
 		}
 	}
 	if len(onlyA) == 0 || len(onlyA) != len(onlyB) {
-		return false
+		return "", false
 	}
 	state := ""
 	for _, m := range append(append([]Msg(nil), onlyA...), onlyB...) {
 		p, ok := prev[m.ID]
 		if !ok || !eqMsg(p, m) {
-			return false // the survivor must be an untouched older message
+			return "", false // the survivor must be an untouched older message
 		}
 		if p.State != "queued" && p.State != "dead" {
-			return false
+			return "", false
 		}
 		if state == "" {
 			state = p.State
 		}
 		if p.State != state {
-			return false
+			return "", false
 		}
 	}
-	return true
+	return state, true
 }
 
 func TestProp_C13_LockStep(t *testing.T) {
